@@ -86,107 +86,177 @@ func c6Check(c *Ctx, lv map[string]int64) {
 		ok, cex := AllDisjunctsHave(dnf, func(s string) bool { return s == "lvl < "+lim })
 		c.Check(ok && IsNilConst(Strip(RetVals(r)[0])), "R6.1", name, "early-return#"+itoa(k+1), r.Pos(), "a return that skips Core.Check is only reachable under lvl < DPanicLevel(%s) (counter-example path: %v)", lim, cex)
 	}
-	// After calls
-	type arm struct {
-		level string
-		dev   bool
-		def   int64
-	}
+	// Terminal hooks, decided per level: Logger.check is explored with the entry
+	// level and the development flag fixed and every other condition free; on
+	// every path that remains, the events are the Core.Check call, the After
+	// calls (with the hook they attach, rendered along that path) and the return.
 	wtp, _ := c.ConstVal(CorePath, "WriteThenPanic")
 	wtf, _ := c.ConstVal(CorePath, "WriteThenFatal")
-	want := map[int64]arm{lv["Panic"]: {"Panic", false, wtp}, lv["Fatal"]: {"Fatal", false, wtf}, lv["DPanic"]: {"DPanic", true, wtp}}
-	seen := map[string]bool{}
-	var afters []*ssa.Call
-	for _, cl := range Calls(fn) {
-		if !IsCallTo(cl, "(*go.uber.org/zap/zapcore.CheckedEntry).After") {
-			continue
+	recv := fn.Params[0].Name()
+	type want struct {
+		def int64
+		cfg string
+	}
+	terminal := func(L int64, dev bool) *want {
+		switch {
+		case L == lv["Panic"], L == lv["DPanic"] && dev:
+			return &want{wtp, recv + ".onPanic"}
+		case L == lv["Fatal"]:
+			return &want{wtf, recv + ".onFatal"}
 		}
-		call := cl.(*ssa.Call)
-		afters = append(afters, call)
-		atoms := AtomStrings(Guards(call))
-		var eq int64 = -999
-		extra := []string{}
-		dev := false
-		for _, a := range atoms {
-			if m := reLevelAtom.FindStringSubmatch(a); m != nil {
-				if m[1] == "==" {
-					v := int64(0)
-					for _, ch := range strings.TrimPrefix(m[2], "-") {
-						v = v*10 + int64(ch-'0')
+		return nil
+	}
+	marks := func(h *ssa.Function) bool {
+		// helpers that take part in the decision: they contain After/Core.Check calls or produce a hook / entry
+		for _, cl := range CallsDeep(h) {
+			if IsCallTo(cl, "(*go.uber.org/zap/zapcore.CheckedEntry).After", "(go.uber.org/zap/zapcore.Core).Check") {
+				return true
+			}
+		}
+		res := h.Signature.Results()
+		for i := 0; i < res.Len(); i++ {
+			ts := res.At(i).Type().String()
+			if strings.HasSuffix(ts, "zapcore.CheckWriteHook") || strings.HasSuffix(ts, "zapcore.CheckedEntry") || ts == "bool" {
+				return true
+			}
+		}
+		return false
+	}
+	levels := []int64{lv["Debug"] - 1}
+	for _, n := range levelNames {
+		levels = append(levels, lv[n])
+	}
+	levels = append(levels, lv["Fatal"]+1)
+	lname := func(L int64) string {
+		for _, n := range levelNames {
+			if lv[n] == L {
+				return n
+			}
+		}
+		return "Level(" + itoa(int(L)) + ")"
+	}
+	for _, L := range levels {
+		for _, dev := range []bool{false, true} {
+			L, dev := L, dev
+			slot := "terminal/" + lname(L)
+			if dev {
+				slot += "/development"
+			}
+			cfg := ConcCfg{
+				Conc: func(d string) (int64, bool) {
+					switch d {
+					case lvl.Name(), "ent.Level":
+						return L, true
+					case recv + ".development":
+						if dev {
+							return 1, true
+						}
+						return 0, true
 					}
-					if strings.HasPrefix(m[2], "-") {
-						v = -v
+					return 0, false
+				},
+				Inline: marks,
+				Event: func(in ssa.Instruction, st *ConcState) string {
+					switch x := in.(type) {
+					case *ssa.Call:
+						if IsCallTo(x, "(go.uber.org/zap/zapcore.Core).Check") {
+							return "check"
+						}
+						if IsCallTo(x, "(*go.uber.org/zap/zapcore.CheckedEntry).After") {
+							a := Args(x)
+							on := "other"
+							if Strip(a[0]) == ssa.Value(coreCheck) {
+								on = "checked"
+							}
+							// follow the hook back to the terminalHookOverride call that produced it on this path
+							hook := Strip(a[2])
+							hd := st.Desc(hook)
+							for k := 0; k < 12; k++ {
+								if hc, ok := hook.(*ssa.Call); ok && IsCallTo(hc, "go.uber.org/zap.terminalHookOverride") {
+									ha := Args(hc)
+									d0 := st.Desc(ha[0])
+									if mi, ok := ha[0].(*ssa.MakeInterface); ok {
+										d0 = st.Desc(mi.X)
+									}
+									hd = "terminalHookOverride(" + d0 + ", " + st.Desc(ha[1]) + ")"
+									break
+								}
+								nx := st.Step(hook)
+								if nx == nil {
+									break
+								}
+								hook = Strip(nx)
+							}
+							entD := "other"
+							if st.Desc(a[1]) == st.Desc(Args(coreCheck)[1]) {
+								entD = "ent"
+							}
+							return "after[" + on + "|" + entD + "|" + hd + "]"
+						}
+					case *ssa.Return:
+						v := x.Results[0]
+						if n, ok := st.IsNil(v); ok && n {
+							return "return nil"
+						}
+						rv := Strip(v)
+						for k := 0; k < 12; k++ {
+							if rc, ok := rv.(*ssa.Call); ok && IsCallTo(rc, "(*go.uber.org/zap/zapcore.CheckedEntry).After") {
+								return "return hooked"
+							}
+							nx := st.Step(rv)
+							if nx == nil {
+								break
+							}
+							rv = Strip(nx)
+						}
+						return "return " + st.Desc(v)
 					}
-					eq = v
-				}
+					return ""
+				},
+			}
+			seqs, trunc := ConcPaths(fn, cfg)
+			if trunc || len(seqs) == 0 {
+				c.Und("R6.1", name, slot, fn.Pos(), "path exploration of Logger.check incomplete (%d sequences, truncated=%v)", len(seqs), trunc)
 				continue
 			}
-			if a == "log.development" {
-				dev = true
-				continue
-			}
-			extra = append(extra, a)
-		}
-		// a further guard is harmless when it is implied by the arm's own level (e.g. the negated cheap pre-check)
-		if _, known := want[eq]; known {
-			var keep []string
-			for _, a := range extra {
-				if !impliedByLevel(a, []string{"lvl", "ent.Level"}, eq) {
-					keep = append(keep, a)
-				}
-			}
-			extra = keep
-		}
-		w, ok := want[eq]
-		if !ok {
-			c.Bad("R6.1", name, "after-arm", call.Pos(), "After is attached under guards %v: not an arm for Panic/Fatal/DPanic", atoms)
-			continue
-		}
-		seen[w.level] = true
-		c.Check(len(extra) == 0 && dev == w.dev, "R6.1", name, "arm-unconditional/"+w.level, call.Pos(),
-			"the %s hook is attached under exactly {ent.Level == %s%s}; extra guards %v (e.g. willWrite/ce != nil would skip termination when no core accepts)", w.level, w.level, map[bool]string{true: ", log.development", false: ""}[w.dev], extra)
-		// receiver is the Core.Check result (possibly nil), entry is ent, hook = terminalHookOverride(default, log.onX)
-		a := call.Call.Args
-		hook, isCall := Strip(a[2]).(*ssa.Call)
-		okHook := isCall && IsCallTo(hook, "go.uber.org/zap.terminalHookOverride")
-		defOK, cfgOK := false, false
-		if okHook {
-			if mi, ok := hook.Call.Args[0].(*ssa.MakeInterface); ok {
-				if v, ok := ConstInt(mi.X); ok && v == w.def {
-					defOK = true
-				}
-			}
-			cfg := Desc(hook.Call.Args[1])
-			cfgOK = cfg == map[string]string{"Panic": "log.onPanic", "DPanic": "log.onPanic", "Fatal": "log.onFatal"}[w.level]
-		}
-		c.Check(Strip(a[0]) == ssa.Value(coreCheck) && okHook && defOK && cfgOK, "R6.1", name, "arm-hook/"+w.level, call.Pos(),
-			"After(ent, terminalHookOverride(<default action %d>, <configured hook>)) on the Core.Check result (default ok=%v, configured ok=%v)", w.def, defOK, cfgOK)
-	}
-	for _, l := range []string{"DPanic", "Panic", "Fatal"} {
-		if !seen[l] {
-			c.Bad("R6.1", name, "arm-missing/"+l, fn.Pos(), "no terminal hook is attached for %sLevel", l)
-		}
-	}
-	// every return after Core.Check returns the value merging the After results; no return between Check and the arms
-	for k, r := range Returns(fn) {
-		if !Dominates(coreCheck, r) {
-			continue
-		}
-		v := Strip(RetVals(r)[0])
-		ph, isPhi := v.(*ssa.Phi)
-		ok := isPhi
-		if isPhi {
-			n := 0
-			for _, e := range ph.Edges {
-				for _, a := range afters {
-					if Strip(e) == ssa.Value(a) {
-						n++
+			w := terminal(L, dev)
+			var bad []string
+			for _, sq := range seqs {
+				ev := strings.Split(sq, " ; ")
+				nAfter, okHook, checked := 0, true, false
+				for _, e := range ev {
+					if e == "check" {
+						checked = true
+					}
+					if strings.HasPrefix(e, "after[") {
+						nAfter++
+						if w == nil || !checked {
+							okHook = false
+							continue
+						}
+						parts := strings.Split(strings.TrimSuffix(strings.TrimPrefix(e, "after["), "]"), "|")
+						wantHook := "terminalHookOverride(" + itoa(int(w.def)) + ", " + w.cfg + ")"
+						if len(parts) != 3 || parts[0] != "checked" || parts[1] != "ent" || strings.ReplaceAll(parts[2], "iface:", "") != wantHook {
+							okHook = false
+						}
 					}
 				}
+				last := ev[len(ev)-1]
+				switch {
+				case w != nil && !(checked && nAfter == 1 && okHook && last == "return hooked"):
+					bad = append(bad, sq)
+				case w == nil && nAfter != 0:
+					bad = append(bad, sq)
+				case L >= lv["DPanic"] && !checked:
+					bad = append(bad, sq)
+				}
 			}
-			ok = n == len(afters) && n >= 3
+			if w != nil {
+				c.Check(len(bad) == 0, "R6.1", name, slot, fn.Pos(), "with the level fixed to %s (development=%v) and every other condition free, all %d distinct paths call Core.Check, then attach exactly one hook terminalHookOverride(%d, %s) to the checked entry and return that entry - whether or not a core accepted (offending: %v)", lname(L), dev, len(seqs), w.def, w.cfg, bad)
+			} else {
+				c.Check(len(bad) == 0, "R6.1", name, slot, fn.Pos(), "with the level fixed to %s (development=%v) no path attaches a terminal hook (%d distinct paths; offending: %v)", lname(L), dev, len(seqs), bad)
+			}
 		}
-		c.Check(ok, "R6.1", name, "returns-hooked-entry#"+itoa(k+1), r.Pos(), "every return after Core.Check (incl. the !willWrite one) yields the entry that went through the terminal-hook switch (%s)", Desc(v))
 	}
 	// terminalHookOverride
 	th := c.Func(ZapPath, "terminalHookOverride")
